@@ -123,6 +123,14 @@ def run(ctx):
     for tag in configs:
         crates = ctx.config(tag)
         check_bin(r, crates["bin"], tag)
+        # R12.9: "exits 0 ... or exits with status 1": the hand-written code of the program has no panic-capable
+        # construct (a panic ends the process with status 101 and a message that is not the diagnostic).  Derive
+        # output of clap is trusted; process::exit is judged by R12.6.
+        from . import panics
+        sfx = "" if tag == "default" else "[%s]" % tag
+        n = panics.scan_panics(r, crates["bin"], prefix="R12.9" + sfx, only=lambda bd, _c=crates["bin"]: not (_c.bodies.get(bd.name.split("::{closure")[0], bd).span.get("exp") or bd.span.get("exp")),
+                                exempt=("std::process::exit",))
+        r.count("panic-capable sites in the program's own code" + sfx, n)
     r.trust("std::fs / std::io / std::process, clap's derive output and the log facade behave as documented")
     r.trust("process exit status 0 follows from main returning normally")
     r.assume("stdout/stderr are the process's standard streams; with --features env_logger the diagnostic goes through the logger to stderr")
